@@ -455,7 +455,9 @@ def run(rep, tier, seed):
     mcases = []
     for sd in range(12 if big else 5):
         for k in (2, 3, 5):
-            a = "<svg>" + "".join(f'<rect wh="1" data-r{i}="{{{{random()}}}}"/>' for i in range(k)) + "</svg>"
+            # (a <config> that gives no seed, anywhere among them, leaves the sequence alone)
+            cfgel = ['<config border="3"/>', '<config font-size="4" theme="dark"/>', ""][sd % 3]
+            a = "<svg>" + cfgel.join(f'<rect wh="1" data-r{i}="{{{{random()}}}}"/>' for i in range(k)) + "</svg>"
             b = '<svg><rect wh="1" data-r="{{' + ", ".join("random()" for _ in range(k)) + '}}"/></svg>'
             mcases.append((f"c14m-{sd}-{k}", a, b, {"seed": sd}))
     mres = vlib.run_cases([{"k": k + x, "xml": xml, "cfg": cfg} for k, a, b, cfg in mcases for x, xml in (("a", a), ("b", b))])
